@@ -534,6 +534,9 @@ func c19Serve(server, root string) *bSession {
 		h := &c19Handler{root}
 		return bServeRS(Handlers{h, h, h, h})
 	}
+	if server == "os-readonly" {
+		return bServeOS(WithServerWorkingDirectory(root), ReadOnly())
+	}
 	return bServeOS(WithServerWorkingDirectory(root))
 }
 
@@ -714,7 +717,7 @@ func c19UnknownPart(c *reg.Ctx) *reg.Result {
 	var i int64
 	for _, n := range names {
 		for pi, pl := range payloads {
-			for _, sv := range []string{"os", "rs"} {
+			for _, sv := range []string{"os", "rs", "os-readonly"} {
 				i++
 				if !c.Mine(i) {
 					continue
@@ -759,7 +762,7 @@ func c19UnknownPart(c *reg.Ctx) *reg.Result {
 		res.Violate("C19", "c19-unknown-side-effect", "unsupported extended requests changed the served tree", nil, nil)
 	}
 	res.Notes["names"] = len(names)
-	res.Bound = fmt.Sprintf("%d names (all strings of length <= 2 over {a,h,@,.,-,NUL}; every 1-character deletion, replacement and upper-casing of the three served names and fsync@openssh.com; suffix/prefix/domain variants) x 3 payload shapes x 2 servers", len(names))
+	res.Bound = fmt.Sprintf("%d names (all strings of length <= 2 over {a,h,@,.,-,NUL}; every 1-character deletion, replacement and upper-casing of the three served names and fsync@openssh.com; suffix/prefix/domain variants) x 3 payload shapes x 3 servers (os-backed, os-backed read-only, request server)", len(names))
 	return res
 }
 
